@@ -224,6 +224,31 @@ func c14Isolation() []string {
 			problems = append(problems, "a binding of one environment is visible in another: "+name)
 		}
 	}
+	// the package's own nil cell handed to DefineValue / SetValue by a host: a store through a pointer to the symbol stays with it
+	for _, how := range []string{"DefineValue", "SetValue", "DefineGlobalValue"} {
+		c, d := env.NewEnv(), env.NewEnv()
+		switch how {
+		case "DefineValue":
+			c.DefineValue("x", env.NilValue)
+			d.DefineValue("y", env.NilValue)
+		case "SetValue":
+			c.Define("x", int64(0))
+			d.Define("y", int64(0))
+			c.SetValue("x", env.NilValue)
+			d.SetValue("y", env.NilValue)
+		default:
+			c.NewEnv().DefineGlobalValue("x", env.NilValue)
+			d.NewEnv().DefineGlobalValue("y", env.NilValue)
+		}
+		run(c, "p = &x; *p = 5")
+		if v, err := run(d, "y"); err != nil || v != nil {
+			problems = append(problems, fmt.Sprintf("a symbol bound to env.NilValue with %s in one environment reads %v %v after `p = &x; *p = 5` in another", how, v, err))
+		}
+		if v, _ := env.NewEnv().Get("nothing-of-that-name"); v != nil {
+			problems = append(problems, fmt.Sprintf("after `p = &x; *p = 5` on a symbol bound to env.NilValue with %s the nil of the whole process is %v", how, v))
+		}
+		env.NilValue.Set(reflect.Zero(env.NilValue.Type()))
+	}
 	// import: each importing environment gets its own copy of the package's symbol table
 	fp0 := packagesFingerprint()
 	v1, err1 := run(a, "s = import(\"strings\"); s.ToUpper(\"a\")")
@@ -824,6 +849,16 @@ func c14Main(seed uint64, n int, outDir, repo string) error {
 		"s = \"a\" + \"b\"; p = &s; *p = \"zz\"; [s, \"a\" + \"b\"]", "a = [1, 2]; p = &a; *p = [9]; [a, len([1, 2])]", "n = len([7]); p = &n; *p = 5; [n, len([7])]",
 		"v = make(struct { A int64 }); v.A = 1; v.A++; q = &v.A; *q = 30; [v.A, 1 + 1]", "x = nil; p = &x; *p = 1; [x, nil]", "m = {\"k\": 1}; m.k++; p = &m; (*p).k = 5; [m.k, 1 + 1]",
 	}
+	// what a literal is converted into (a byte slice, a rune slice, a typed element) is the run's own: storing into it must not
+	// reach the literal in the tree
+	directed = append(directed,
+		"name = \"hello\"; greeting = name + \", world\"; buf = [][]byte{name}; buf[0][0] = 72; [greeting, name]",
+		"b = []byte{}; b = [][]byte{\"abc\"}[0]; b[1] = 90; [\"abc\", b[1]]", "m = map[string][]byte{\"k\": \"xyz\"}; m.k[0] = 65; [m.k[0], \"xyz\"]",
+		"a = make([][]byte, 1); a[0] = \"hey\"; a[0][2] = 33; [\"hey\", a[0][2]]", "v = make(struct { B []byte }); v.B = \"abc\"; v.B[0] = 88; [\"abc\", v.B[0]]",
+		"c = make(chan []byte, 1); c <- \"msg\"; x = (<- c); x[0] = 77; [\"msg\", x[0]]", "r = [][]rune{\"héllo\"}; r[0][1] = 101; [\"héllo\", r[0][1]]",
+		"s = \"lit\"; t = [][]byte{s}; u = [][]byte{s}; t[0][0] = 76; [s, t[0][0], u[0][0]]", "x = [][]byte{\"ab\" + \"cd\"}; x[0][0] = 65; \"ab\" + \"cd\"",
+		"l = [\"one\", \"two\"]; b = [][]byte{l[0]}; b[0][0] = 79; [l, \"one\"]", "func mk() { return \"fresh\" }; b = [][]byte{mk()}; b[0][0] = 70; [mk(), b[0][0]]",
+		"a = [][]int64{[1, 2]}; a[0][0] = 9; [[1, 2], a]", "a = [][]string{[\"p\", \"q\"]}; a[0][0] = \"z\"; [[\"p\", \"q\"], a]", "k = \"key\"; m = {k: 1}; kb = [][]byte{k}; kb[0][0] = 75; [m, k]")
 	add := func(src string) {
 		r, ok := c14One(src)
 		if !ok {
